@@ -114,7 +114,13 @@ func runC08(c *run.Ctx) {
 	cfg := world.DefaultCfg()
 	cfg.NamedEgressIP = 0
 	w2 := w
-	for n := 2; n > 0; n-- {
+	if c.Idx%2 == 1 { // the same connection moves between two address blocks: removed + added entries with equal connections
+		if nw, ok := world.MoveCIDR(g, w2); ok {
+			w2 = nw
+			r.Ev("diff_partner_with_moved_cidr", 1)
+		}
+	}
+	for n := 2; n > 0 && (c.Idx%2 == 0 || g.P(0.3)); n-- {
 		if nw, _ := world.Mutate(g, w2, cfg); nw != nil {
 			w2 = nw
 		}
